@@ -3,6 +3,7 @@ import HappyProofs.C16.PageSize
 import HappyProofs.C16.PageCons
 import HappyProofs.C16.PageObs
 import HappyProofs.C16.PageEv
+import HappyProofs.C16.PageWrite
 /-!
 C16 — property theorems for `PageCache` (infrastructure/page_cache.py), imported by Props.lean.
 
